@@ -348,6 +348,12 @@ HARNESSES = [
             # end, blank or comment): every line of the seed programs as
             # the last line
             [dict(Q, src=s) for s in NO_TAIL] +
+            # number spellings, if ... do mixed with then
+            [dict(Q, src=s) for s in (
+                'x=0xFF+0X1f+0B101+1E3+0xAb.Cd+0b1.1\n',)] +
+            [dict(Q, src=s, must_work=True) for s in (
+                'if x do y=1 elseif z then w=2 else v=3 end\n',
+                'if (c) do\n a=1\nelseif d then\n b=2\nend\n')] +
             # operators that must not be pushed together, blocks inside
             # line-scoped constructs
             [dict(Q, src=s) for s in (
